@@ -91,7 +91,7 @@ func matchCond(c Cond, cond ssa.Value) (matched, passOnTrue bool) {
 			// comparing a boolean against a constant true/false
 			_ = b
 		}
-		if re(c.L).MatchString(pathOf(cond)) {
+		if re(c.L).MatchString(pathOf(cond)) || re(c.L).MatchString(pathOfX(cond)) {
 			pass := c.Op == "T"
 			if neg {
 				pass = !pass
@@ -121,7 +121,17 @@ func matchCond(c Cond, cond ssa.Value) (matched, passOnTrue bool) {
 	if m, p := try(x, y, op); m {
 		return m, p
 	}
-	return try(y, x, flipOp[op])
+	if m, p := try(y, x, flipOp[op]); m {
+		return m, p
+	}
+	// second spelling: fields read through trivial accessors
+	if x2, y2 := pathOfX(b.X), pathOfX(b.Y); x2 != x || y2 != y {
+		if m, p := try(x2, y2, op); m {
+			return m, p
+		}
+		return try(y2, x2, flipOp[op])
+	}
+	return false, false
 }
 
 func isCmp(op token.Token) bool {
